@@ -163,7 +163,15 @@ def summaries(log):
         r = cx.NDArr(cx.Store('interpolated'))
         r.store.deps = set(cx.deps_of(kw.get('values')))
         return r
+    def data_or_file(it, args, kw, node):
+        # the moment the inputs of a task leave the simulation (with file_dir they are written to disk HERE): snapshot of the tolerance
+        data = args[4] if len(args) > 4 else kw.get('data')
+        what = args[1] if len(args) > 1 else kw.get('what')
+        so = data.get('solver_opts') if isinstance(data, dict) else None
+        log.append(('handover', what, so.get('tol') if isinstance(so, dict) else None, 'sfield' in data if isinstance(data, dict) else None))
+        return data
     d = {'_multiprocessing.process_map': process_map, 'simulations.Simulation.get_grid': get_grid,
+         'simulations.Simulation._data_or_file': data_or_file,
          'simulations.Simulation._get_responses': get_responses, 'simulations.Simulation._get_rfield': get_rfield,
          'fields.Field': field, 'maps.interp_edges_to_vol_averages': edges_to_vol, 'maps._interp_volume_average_adj': vol_adj,
          'simulations.Simulation.print_solver_info': quiet, 'maps.interpolate': interpolate,
@@ -364,6 +372,19 @@ def task_op(op):
             gs.append(z3.BoolVal(e[2]['model'] is r.state['sim'].fields['model']))
         return z3.And(*gs) if gs else z3.BoolVal(True)
     clause(col, 'forward_tasks_use_tol_forward__adjoint_and_jvec_tasks_tol_gradient__all_use_the_current_model', res, tol_ok)
+
+    def handover_ok(r):
+        # ... and they carry that tolerance already when their inputs are collected (file-based mode writes them to disk at that moment)
+        gs = []
+        for e in r.state['log']:
+            if e[0] != 'handover':
+                continue
+            want = r.state['sim'].fields['tol_forward'] if not e[3] else r.state['sim'].fields['tol_gradient']
+            if not cx.is_sym(e[2]):
+                return False
+            gs.append(e[2] == want)
+        return z3.And(*gs) if gs else z3.BoolVal(True)
+    clause(col, 'task_inputs_carry_their_tolerance_when_they_are_handed_over_to_memory_or_file', res, handover_ok)
     if op == 'model_update':
         # canary: replacing the model WITHOUT the clean must break the invariant from the computed states
         rc = run_op('canary_model_update_without_clean', 'gradient') + run_op('canary_model_update_without_clean', 'computed')
